@@ -288,13 +288,16 @@ Fixpoint slots_from (h : mask) (o : nat) (T : list (list kv)) : list slot :=
   | [] => []
   | t :: r => (if h o then [] else head_slot o t) ++ slots_from h (S o) r
   end.
-Fixpoint rdrs_from (h : mask) (o : nat) (T : list (list kv)) : list (list kv) :=
+(* the state of a reader whose head item sits in the heap - or, if it has none, which has
+   returned None: it is [Done 0] then and, not being held, will not be polled again *)
+Definition unheld (t : list kv) : rstate := match t with [] => Done 0 | _ :: t' => Live t' end.
+Fixpoint rdrs_from (h : mask) (o : nat) (T : list (list kv)) : list rstate :=
   match T with
   | [] => []
-  | t :: r => (if h o then t else tl t) :: rdrs_from h (S o) r
+  | t :: r => (if h o then Live t else unheld t) :: rdrs_from h (S o) r
   end.
 Definition rep (h : mask) (u : sheap) (T : list (list kv)) : Prop :=
-  rdrs u = rdrs_from h 0 T /\ Permutation (heap u) (slots_from h 0 T).
+  map r_state (rdrs u) = rdrs_from h 0 T /\ Permutation (heap u) (slots_from h 0 T).
 
 Lemma hset_same h i b : hset h i b i = b.
 Proof. unfold hset. now rewrite Nat.eqb_refl. Qed.
@@ -318,7 +321,7 @@ Qed.
 Lemma rdrs_from_length h T : forall o, length (rdrs_from h o T) = length T.
 Proof. induction T as [|t T IH]; intros o; cbn; [reflexivity|]. now rewrite IH. Qed.
 Lemma rdrs_from_nth h T : forall o j, nth_error (rdrs_from h o T) j
-  = option_map (fun t => if h (o + j)%nat then t else tl t) (nth_error T j).
+  = option_map (fun t => if h (o + j)%nat then Live t else unheld t) (nth_error T j).
 Proof.
   induction T as [|t T IH]; intros o [|j]; cbn [rdrs_from nth_error option_map]; try reflexivity.
   - now rewrite Nat.add_0_r.
@@ -342,7 +345,7 @@ Qed.
 
 (* a held reader gets its item back into the heap (refill) *)
 Lemma unhold h T t : forall o j, nth_error T j = Some t -> h (o + j)%nat = true ->
-  rdrs_from (hset h (o + j) false) o T = set_nth (rdrs_from h o T) j (tl t) /\
+  rdrs_from (hset h (o + j) false) o T = set_nth (rdrs_from h o T) j (unheld t) /\
   Permutation (slots_from (hset h (o + j) false) o T) (head_slot (o + j) t ++ slots_from h o T).
 Proof.
   induction T as [|t0 T IH]; intros o [|j] Hn Hh; try discriminate.
@@ -361,7 +364,7 @@ Qed.
 (* what a held reader still has does not show in the heap *)
 Lemma held_irrelevant h x T : forall o j, h (o + j)%nat = true ->
   slots_from h o (set_nth T j x) = slots_from h o T /\
-  rdrs_from h o (set_nth T j x) = set_nth (rdrs_from h o T) j x.
+  rdrs_from h o (set_nth T j x) = set_nth (rdrs_from h o T) j (Live x).
 Proof.
   induction T as [|t0 T IH]; intros o [|j] Hh; cbn [set_nth slots_from rdrs_from]; auto.
   - rewrite Nat.add_0_r in Hh. rewrite Hh. auto.
@@ -408,16 +411,29 @@ Proof.
   - inversion H; subst. lia.
   - specialize (IH j t x H). lia.
 Qed.
-Lemma from_size h T : forall o, (length (slots_from h o T) + total (rdrs_from h o T) = total T)%nat.
+Lemma from_size h T : forall o, (length (slots_from h o T) + total (map live_of (rdrs_from h o T)) = total T)%nat.
 Proof.
   induction T as [|t T IH]; intros o; [reflexivity|].
-  cbn [slots_from rdrs_from total fold_right]. rewrite app_length.
+  cbn [slots_from rdrs_from map total fold_right]. rewrite app_length.
   specialize (IH (S o)). unfold total in IH.
   destruct (h o); [cbn; lia|]. destruct t; cbn; lia.
 Qed.
 Lemma rep_size h u T : rep h u T -> hsize u = total T.
 Proof.
-  intros [R P]. unfold hsize. rewrite R, (Permutation_length P). apply from_size.
+  intros [R P]. unfold hsize, rtotal. rewrite <- (map_map r_state live_of), R, (Permutation_length P). apply from_size.
+Qed.
+Lemma map_set_nth {A B} (f : A -> B) (l : list A) : forall j x, map f (set_nth l j x) = set_nth (map f l) j (f x).
+Proof. induction l as [|y l IH]; intros [|j] x; cbn; auto. f_equal. apply IH. Qed.
+(* the readers of a represented heap have never been polled after their None *)
+Lemma rdrs_from_no_again h T : forall o, Forall (fun s => match s with Done (S _) => False | _ => True end) (rdrs_from h o T).
+Proof.
+  induction T as [|t T IH]; intros o; cbn [rdrs_from]; constructor; [|apply IH].
+  destruct (h o); [exact I|]. destruct t; exact I.
+Qed.
+Lemma rep_no_again h u T : rep h u T -> Forall (fun r => again_of r = O) (rdrs u).
+Proof.
+  intros [R _]. pose proof (rdrs_from_no_again h T 0) as H. rewrite <- R, Forall_map in H.
+  eapply Forall_impl; [|exact H]. intros r. unfold again_of. destruct (r_state r) as [|[|n]]; tauto.
 Qed.
 
 (* ================= slots and their order ================= *)
@@ -771,14 +787,15 @@ Lemma refill_rep h u T s t : rep h u T -> nth_error T (idx s) = Some t -> h (idx
   exists u', refill u s = Ok u' /\ rep (hset h (idx s) false) u' T.
 Proof.
   intros [R P] Hn Hh. destruct (unhold h T t 0 (idx s) Hn Hh) as [E1 P1]. cbn [Nat.add] in *.
-  assert (nth_error (rdrs u) (idx s) = Some t) as Hr.
-  { rewrite R, rdrs_from_nth, Hn. cbn. now rewrite Hh. }
-  unfold refill. rewrite Hr. destruct t as [|[k v] r].
-  - exists u. split; [reflexivity|]. split.
-    + rewrite E1. cbn [tl]. rewrite <- R. symmetry. apply set_nth_nth. exact Hr.
+  assert (exists r, nth_error (rdrs u) (idx s) = Some r /\ r_state r = Live t) as (r & Hr & Hst).
+  { pose proof (rdrs_from_nth h T 0 (idx s)) as Hx. rewrite <- R, Hn, nth_error_map in Hx. cbn in Hx. rewrite Hh in Hx.
+    destruct (nth_error (rdrs u) (idx s)) as [r|]; [|discriminate]. cbn in Hx. inversion Hx. eauto. }
+  unfold refill. rewrite Hr. unfold poll. rewrite Hst. destruct t as [|[k v] r0].
+  - eexists. split; [reflexivity|]. split; cbn [rdrs heap].
+    + rewrite map_set_nth, E1, R. reflexivity.
     + rewrite P1. exact P.
   - eexists. split; [reflexivity|]. split; cbn [rdrs heap].
-    + rewrite E1, R. reflexivity.
+    + rewrite map_set_nth, E1, R. reflexivity.
     + rewrite P1. cbn. constructor. exact P.
 Qed.
 
@@ -1012,16 +1029,26 @@ Proof.
   - specialize (IH i e t' Hn Ek). pose proof (drop_head_len k t). lia.
 Qed.
 
-Definition next_ok {St X : Type} (Rep : St -> X -> Prop) (measure : X -> nat) (spec : X -> list item)
+Definition next_ok {St X : Type} (Rep : St -> X -> Prop) (Fin : St -> Prop) (measure : X -> nat) (spec : X -> list item)
   (x : X) (r : option item * St) : Prop :=
   match fst r with
-  | None => spec x = []
+  | None => spec x = [] /\ Fin (snd r)
   | Some it => exists x' outs', Rep (snd r) x' /\ (measure x' < measure x)%nat /\
                  spec x = (fst it, outs') :: spec x' /\ Permutation (snd it) outs'
   end.
 
+(* every reader has returned None exactly once and has not been polled since *)
+Definition all_done (st : opstate) : Prop := Forall (fun r => r_state r = Done 0) (rdrs (o_heap st)).
+Lemma rep_all_done u T : rep hnone u T -> slots_from hnone 0 T = [] -> Forall (fun r => r_state r = Done 0) (rdrs u).
+Proof.
+  intros [R _] H. apply slots_none_nil in H.
+  assert (forall o, Forall (fun s => s = Done 0) (rdrs_from hnone o T)) as HF.
+  { clear R. induction H as [|t T -> _ IH]; intros o; cbn [rdrs_from hnone unheld]; constructor; auto. }
+  specialize (HF 0%nat). rewrite <- R, Forall_map in HF. exact HF.
+Qed.
+
 Lemma union_next_spec st T : st_rep st T ->
-  exists r, union_next pop_min st = Some (Ok r) /\ next_ok st_rep total spec_union T r.
+  exists r, union_next pop_min st = Some (Ok r) /\ next_ok st_rep all_done total spec_union T r.
 Proof.
   intros Hst. destruct (refill_cur_spec st T Hst) as (u & Hf & Hr). destruct Hst as [Hs _].
   unfold union_next. rewrite Hf. cbn [lift fbind].
@@ -1034,8 +1061,9 @@ Proof.
     + eapply total_drop_lt; eauto.
     + apply spec_union_unfold; auto. exists (e :: t'). split; [eapply nth_error_In; eauto|].
       left. exact Ek.
-  - eexists. split; [reflexivity|]. unfold next_ok. cbn [fst].
-    apply spec_union_nil. eapply slots_none_nil. eapply pop_none; eauto.
+  - eexists. split; [reflexivity|]. unfold next_ok. cbn [fst snd]. pose proof (pop_none _ _ _ Hr Hp) as Hnil. split.
+    + apply spec_union_nil. eapply slots_none_nil. exact Hnil.
+    + unfold all_done. cbn [o_heap]. eapply rep_all_done; eauto.
 Qed.
 
 Lemma outs_from_length_le k T : forall o, (length (outs_from o k T) <= length T)%nat.
@@ -1051,7 +1079,7 @@ Proof.
 Qed.
 
 Lemma sel_loop_spec op : forall n u T outs0, rep hnone u T -> streams_ok T -> (total T < n)%nat ->
-  exists r, sel_loop pop_min op n u outs0 = Some (Ok r) /\ next_ok st_rep total (spec_sel op) T r.
+  exists r, sel_loop pop_min op n u outs0 = Some (Ok r) /\ next_ok st_rep all_done total (spec_sel op) T r.
 Proof.
   induction n as [|n IH]; intros u T outs0 Hr Hs Hn; [lia|]. cbn [sel_loop].
   destruct (sh_pop pop_min u) as [[s u1]|] eqn:Hp.
@@ -1061,7 +1089,7 @@ Proof.
     assert (exists t, In t T /\ In k (keys_of t)) as Hex.
     { exists (e :: t'). split; [eapply nth_error_In; eauto|]. left. exact Ek. }
     assert (num_slots u2 = length T) as Hns.
-    { unfold num_slots. destruct Hr2 as [R _]. rewrite R, rdrs_from_length. apply drop_key_length. }
+    { unfold num_slots. destruct Hr2 as [R _]. rewrite <- (map_length r_state), R, rdrs_from_length. apply drop_key_length. }
     assert (idx s < length T')%nat as Hlt.
     { unfold T'. rewrite drop_key_length. eapply nth_error_lt; eauto. }
     pose proof (spec_sel_unfold op k T Hs Hlb Hex) as Hu.
@@ -1078,12 +1106,13 @@ Proof.
       exists r. split; [exact Hl|]. unfold next_ok in *. rewrite Hu. cbn [app].
       destruct (fst r) as [it|]; [|exact Hok].
       destruct Hok as (x' & outs' & H1 & H2 & H3 & H4). exists x', outs'. split; [exact H1|split; [lia|split; [exact H3|exact H4]]].
-  - eexists. split; [reflexivity|]. unfold next_ok. cbn [fst]. unfold spec_sel.
-    rewrite spec_union_nil; [reflexivity|]. eapply slots_none_nil. eapply pop_none; eauto.
+  - eexists. split; [reflexivity|]. unfold next_ok. cbn [fst snd]. pose proof (pop_none _ _ _ Hr Hp) as Hnil. split.
+    + unfold spec_sel. rewrite spec_union_nil; [reflexivity|]. eapply slots_none_nil. exact Hnil.
+    + unfold all_done. cbn [o_heap]. eapply rep_all_done; eauto.
 Qed.
 
 Lemma sel_next_spec op st T : st_rep st T ->
-  exists r, sel_next pop_min op st = Some (Ok r) /\ next_ok st_rep total (spec_sel op) T r.
+  exists r, sel_next pop_min op st = Some (Ok r) /\ next_ok st_rep all_done total (spec_sel op) T r.
 Proof.
   intros Hst. destruct (refill_cur_spec st T Hst) as (u & Hf & Hr). destruct Hst as [Hs _].
   unfold sel_next. rewrite Hf. cbn [lift fbind]. apply sel_loop_spec; auto.
@@ -1091,9 +1120,9 @@ Proof.
 Qed.
 
 (* ---------- StreamHeap::new ---------- *)
-Lemma all_held h T : (forall j, h j = true) -> forall o, slots_from h o T = [] /\ rdrs_from h o T = T.
+Lemma all_held h T : (forall j, h j = true) -> forall o, slots_from h o T = [] /\ rdrs_from h o T = map Live T.
 Proof.
-  intros Hh. induction T as [|t T IH]; intros o; [auto|]. cbn [slots_from rdrs_from].
+  intros Hh. induction T as [|t T IH]; intros o; [auto|]. cbn [slots_from rdrs_from map].
   rewrite Hh. destruct (IH (S o)) as [E1 E2]. rewrite E1, E2. auto.
 Qed.
 Lemma refill_all_spec T : forall n m u, rep (hfrom m) u T -> (m + n)%nat = length T ->
@@ -1111,45 +1140,57 @@ Proof.
     + subst. symmetry. apply Nat.leb_gt. lia.
     + destruct (Nat.leb_spec m j), (Nat.leb_spec (S m) j); auto; lia.
 Qed.
-Lemma sh_new_spec T : exists u, sh_new T = Ok u /\ rep hnone u T.
+Lemma sh_new_spec X : exists u, sh_new X = Ok u /\ rep hnone u (map s_items X).
 Proof.
-  unfold sh_new. apply refill_all_spec; [|reflexivity].
-  destruct (all_held (hfrom 0) T (fun _ => eq_refl) 0) as [E1 E2].
-  split; cbn [rdrs heap]; [now rewrite E2|now rewrite E1].
+  unfold sh_new. apply refill_all_spec; [|now rewrite map_length].
+  destruct (all_held (hfrom 0) (map s_items X) (fun _ => eq_refl) 0) as [E1 E2].
+  split; cbn [rdrs heap]; [rewrite E2, !map_map; reflexivity|now rewrite E1].
 Qed.
-Lemma op_new_spec T : streams_ok T -> exists st, op_new T = Ok st /\ st_rep st T.
+Lemma op_new_spec X : streams_ok (map s_items X) -> exists st, op_new X = Ok st /\ st_rep st (map s_items X).
 Proof.
-  intros Hs. destruct (sh_new_spec T) as (u & Hn & Hr). unfold op_new. rewrite Hn. cbn [bind].
+  intros Hs. destruct (sh_new_spec X) as (u & Hn & Hr). unfold op_new. rewrite Hn. cbn [bind].
   eexists. split; [reflexivity|]. split; [exact Hs|exact Hr].
 Qed.
 
 (* ---------- draining an op stream ---------- *)
 Lemma collect_spec {St X : Type} (next : St -> fres (option item * St))
-  (Rep : St -> X -> Prop) (measure : X -> nat) (spec : X -> list item) :
-  (forall st x, Rep st x -> exists r, next st = Some (Ok r) /\ next_ok Rep measure spec x r) ->
+  (Rep : St -> X -> Prop) (Fin : St -> Prop) (measure : X -> nat) (spec : X -> list item) :
+  (forall st x, Rep st x -> exists r, next st = Some (Ok r) /\ next_ok Rep Fin measure spec x r) ->
   forall n st x, Rep st x -> (measure x < n)%nat ->
-  exists out, collect next n st = Some (Ok out) /\ out_eqv out (spec x).
+  exists out stf, collect next n st = Some (Ok (out, stf)) /\ out_eqv out (spec x) /\ Fin stf.
 Proof.
   intros Hnext. induction n as [|n IH]; intros st x Hr Hn; [lia|]. cbn [collect].
   destruct (Hnext st x Hr) as (r & Hs & Hok). rewrite Hs. cbn [fbind]. unfold next_ok in Hok.
   destruct (fst r) as [it|].
   - destruct Hok as (x' & outs' & Hr' & Hm & Hsp & Hp).
-    destruct (IH (snd r) x' Hr' ltac:(lia)) as (l & Hc & He). rewrite Hc. cbn [fbind].
-    eexists. split; [reflexivity|]. rewrite Hsp. constructor; [|exact He]. split; [reflexivity|exact Hp].
-  - eexists. split; [reflexivity|]. rewrite Hok. constructor.
+    destruct (IH (snd r) x' Hr' ltac:(lia)) as (l & stf & Hc & He & Hf). rewrite Hc. cbn [fbind fst snd].
+    eexists _, _. split; [reflexivity|]. split; [|exact Hf].
+    rewrite Hsp. constructor; [|exact He]. split; [reflexivity|exact Hp].
+  - destruct Hok as [Hnil Hf]. eexists _, _. split; [reflexivity|]. split; [|exact Hf]. rewrite Hnil. constructor.
 Qed.
 
-Theorem run_union_correct ss : streams_ok ss ->
-  exists out, run_union pop_min ss = Some (Ok out) /\ out_eqv out (spec_union ss).
+(* the runs over arbitrary (non-inert) streams: what is emitted is the set-theoretic combination of
+   the items every stream yields before its first None, and at the end every reader is [Done 0]:
+   it has returned None once and has not been polled again *)
+Theorem union_collect_correct X : streams_ok (map s_items X) ->
+  exists st0 out stf, op_new X = Ok st0 /\
+    collect (union_next pop_min) (S (items_total X)) st0 = Some (Ok (out, stf)) /\
+    out_eqv out (spec_union (map s_items X)) /\ all_done stf.
 Proof.
-  intros Hs. destruct (op_new_spec ss Hs) as (st & Hn & Hr). unfold run_union. rewrite Hn. cbn [lift fbind].
-  eapply collect_spec with (Rep := st_rep) (measure := total); [apply union_next_spec|exact Hr|lia].
+  intros Hs. destruct (op_new_spec X Hs) as (st & Hn & Hr).
+  destruct (collect_spec (union_next pop_min) st_rep all_done total spec_union union_next_spec
+              (S (items_total X)) st (map s_items X) Hr) as (out & stf & Hc & He & Hf); [unfold items_total; lia|].
+  eauto 8.
 Qed.
-Theorem run_sel_correct op ss : streams_ok ss ->
-  exists out, run_sel pop_min op ss = Some (Ok out) /\ out_eqv out (spec_sel op ss).
+Theorem sel_collect_correct op X : streams_ok (map s_items X) ->
+  exists st0 out stf, op_new X = Ok st0 /\
+    collect (sel_next pop_min op) (S (items_total X)) st0 = Some (Ok (out, stf)) /\
+    out_eqv out (spec_sel op (map s_items X)) /\ all_done stf.
 Proof.
-  intros Hs. destruct (op_new_spec ss Hs) as (st & Hn & Hr). unfold run_sel. rewrite Hn. cbn [lift fbind].
-  eapply collect_spec with (Rep := st_rep) (measure := total); [apply sel_next_spec|exact Hr|lia].
+  intros Hs. destruct (op_new_spec X Hs) as (st & Hn & Hr).
+  destruct (collect_spec (sel_next pop_min op) st_rep all_done total (spec_sel op) (sel_next_spec op)
+              (S (items_total X)) st (map s_items X) Hr) as (out & stf & Hc & He & Hf); [unfold items_total; lia|].
+  eauto 8.
 Qed.
 
 (* ---------- Difference ---------- *)
@@ -1190,7 +1231,10 @@ Proof.
 Qed.
 
 Definition d_rep (st : dstate) (x : list kv * list (list kv)) : Prop :=
-  d_set st = fst x /\ kmap_ok (fst x) = true /\ streams_ok (snd x) /\ rep hnone (d_heap st) (snd x).
+  r_state (d_set st) = Live (fst x) /\ kmap_ok (fst x) = true /\ streams_ok (snd x) /\ rep hnone (d_heap st) (snd x).
+(* the first stream has returned None once; no reader has been polled after its None *)
+Definition d_fin (st : dstate) : Prop :=
+  r_state (d_set st) = Done 0 /\ Forall (fun r => again_of r = O) (rdrs (d_heap st)).
 Definition d_measure (x : list kv * list (list kv)) : nat := length (fst x).
 Definition d_spec (x : list kv * list (list kv)) : list item := spec_diff_of (fst x) (snd x).
 
@@ -1211,13 +1255,15 @@ Proof.
 Qed.
 
 Lemma diff_loop_spec : forall n st x, d_rep st x -> (d_measure x < n)%nat ->
-  exists r, diff_loop pop_min n st = Some (Ok r) /\ next_ok d_rep d_measure d_spec x r.
+  exists r, diff_loop pop_min n st = Some (Ok r) /\ next_ok d_rep d_fin d_measure d_spec x r.
 Proof.
   induction n as [|n IH]; intros st [s0 Tr] (Eset & Hok & Hs & Hr) Hn; [lia|].
-  unfold d_measure in *. cbn [fst snd] in *. cbn [diff_loop]. rewrite Eset.
+  unfold d_measure in *. cbn [fst snd] in *. cbn [diff_loop]. unfold poll. rewrite Eset.
   destruct s0 as [|[k v] r].
-  - eexists. split; [reflexivity|]. unfold next_ok. cbn [fst]. reflexivity.
-  - destruct (drain_le_spec k (S (hsize (d_heap st))) (d_heap st) Tr true Hr Hs) as (u2 & b & Hd & Hr2 & Hb).
+  - eexists. split; [reflexivity|]. unfold next_ok. cbn [fst snd]. split; [reflexivity|].
+    split; cbn [d_set d_heap r_state]; [reflexivity|]. eapply rep_no_again; eauto.
+  - set (rd := mkreader (Live r) (r_after (d_set st)) (S (r_polls (d_set st)))).
+    destruct (drain_le_spec k (S (hsize (d_heap st))) (d_heap st) Tr true Hr Hs) as (u2 & b & Hd & Hr2 & Hb).
     { rewrite (rep_size _ _ _ Hr). lia. }
     rewrite Hd. cbn [fbind].
     apply kmap_ok_cons in Hok as [Hgt Hok']. cbn [fst] in Hgt.
@@ -1240,7 +1286,7 @@ Proof.
       * unfold d_measure. cbn. lia.
       * exact Hsp.
       * apply Permutation_refl.
-    + destruct (IH (mkd r k u2 [(O, v)]) (r, Tr')) as (q & Hq & Hok2).
+    + destruct (IH (mkd rd k u2 [(O, v)]) (r, Tr')) as (q & Hq & Hok2).
       { split; [reflexivity|]. cbn [fst snd d_heap]. auto. } { cbn [fst]. cbn [length] in Hn. lia. }
       exists q. split; [exact Hq|]. unfold next_ok in *. rewrite Hsp. cbn [app].
       destruct (fst q) as [it|]; [|exact Hok2].
@@ -1249,70 +1295,52 @@ Proof.
 Qed.
 
 Lemma diff_next_spec st x : d_rep st x ->
-  exists r, diff_next pop_min st = Some (Ok r) /\ next_ok d_rep d_measure d_spec x r.
+  exists r, diff_next pop_min st = Some (Ok r) /\ next_ok d_rep d_fin d_measure d_spec x r.
 Proof.
   intros Hr. unfold diff_next. apply diff_loop_spec; [exact Hr|].
-  destruct Hr as [E _]. unfold d_measure. rewrite E. lia.
+  destruct Hr as [E _]. unfold d_measure. rewrite E. cbn [live_of]. lia.
 Qed.
 
-Theorem run_difference_correct s0 rest : streams_ok (s0 :: rest) ->
-  run_difference pop_min (s0 :: rest) = Some (Ok (spec_difference (s0 :: rest))).
+Theorem difference_collect_correct x0 rest : streams_ok (map s_items (x0 :: rest)) ->
+  exists rest' st0 stf, swap_remove0 (x0 :: rest) = Some (x0, rest') /\ Permutation rest rest' /\
+    diff_new (x0 :: rest) = Ok st0 /\
+    collect (diff_next pop_min) (S (items_total (x0 :: rest))) st0
+      = Some (Ok (spec_difference (map s_items (x0 :: rest)), stf)) /\ d_fin stf.
 Proof.
-  intros Hs. inversion Hs; subst. destruct (swap_remove0_cons s0 rest) as (rest' & Hsw & Hp).
-  assert (streams_ok rest') as Hs'. { unfold streams_ok. rewrite <- Hp. assumption. }
+  intros Hs. cbn [map] in Hs. inversion Hs; subst. destruct (swap_remove0_cons x0 rest) as (rest' & Hsw & Hp).
+  assert (Permutation (map s_items rest) (map s_items rest')) as Hp' by (apply Permutation_map; exact Hp).
+  assert (streams_ok (map s_items rest')) as Hs'. { unfold streams_ok. rewrite <- Hp'. assumption. }
   destruct (sh_new_spec rest') as (u & Hn & Hr).
-  unfold run_difference, diff_new. rewrite Hsw, Hn. cbn [bind lift fbind].
-  destruct (collect_spec (diff_next pop_min) d_rep d_measure d_spec diff_next_spec
-              (S (total (s0 :: rest))) (mkd s0 [] u []) (s0, rest')) as (out & Hc & He).
+  unfold diff_new. rewrite Hsw, Hn. cbn [bind].
+  destruct (collect_spec (diff_next pop_min) d_rep d_fin d_measure d_spec diff_next_spec
+              (S (items_total (x0 :: rest))) (mkd (open x0) [] u []) (s_items x0, map s_items rest')) as (out & stf & Hc & He & Hf).
   { split; [reflexivity|]. cbn [fst snd d_heap]. auto. }
-  { unfold d_measure. cbn [fst]. rewrite total_cons. lia. }
-  rewrite Hc. do 2 f_equal. unfold d_spec in He. cbn [fst snd spec_difference] in *.
-  rewrite (spec_diff_perm s0 rest rest' Hp). apply out_eqv_singletons; [exact He|].
+  { unfold d_measure, items_total. cbn [fst map]. rewrite total_cons. lia. }
+  exists rest', (mkd (open x0) [] u []), stf. split; [reflexivity|]. split; [exact Hp|]. split; [reflexivity|]. split; [|exact Hf].
+  rewrite Hc. do 3 f_equal. unfold d_spec in He. cbn [fst snd spec_difference map] in *.
+  rewrite (spec_diff_perm (s_items x0) _ _ Hp'). apply out_eqv_singletons; [exact He|].
   unfold spec_diff_of. rewrite Forall_map. apply Forall_forall. intros e _. cbn [snd]. eauto.
 Qed.
-Theorem run_difference_empty : run_difference pop_min [] = Some Panic.
+Theorem diff_new_empty : diff_new [] = Panic.
 Proof. reflexivity. Qed.
 
-(* ---------- the predicates ---------- *)
-Theorem is_disjoint_correct (s0 s1 : list kv) : kmap_ok s0 = true -> kmap_ok s1 = true ->
-  is_disjoint pop_min s0 s1 = Some (Ok (spec_disjoint s0 s1)).
+(* ---------- one call of next on an intersection (is_disjoint) ---------- *)
+Theorem inter_first_correct (x0 x1 : instream) : kmap_ok (s_items x0) = true -> kmap_ok (s_items x1) = true ->
+  exists st0 r, op_new [x0; x1] = Ok st0 /\ sel_next pop_min OpInter st0 = Some (Ok r) /\
+    (match fst r with None => true | Some _ => false end) = spec_disjoint (s_items x0) (s_items x1) /\
+    Forall (fun rd => again_of rd = O) (rdrs (o_heap (snd r))).
 Proof.
-  intros H0 H1. assert (streams_ok [s0; s1]) as Hs by (repeat constructor; assumption).
-  destruct (op_new_spec [s0; s1] Hs) as (st & Hn & Hr).
-  destruct (sel_next_spec OpInter st [s0; s1] Hr) as (r & Hx & Hok).
-  unfold is_disjoint. rewrite Hn. cbn [lift fbind]. rewrite Hx. cbn [fbind]. unfold fret. do 2 f_equal.
+  intros H0 H1. set (s0 := s_items x0). set (s1 := s_items x1).
+  assert (streams_ok (map s_items [x0; x1])) as Hs by (repeat constructor; assumption).
+  destruct (op_new_spec [x0; x1] Hs) as (st & Hn & Hr).
+  destruct (sel_next_spec OpInter st _ Hr) as (r & Hx & Hok). cbn [map] in Hok. fold s0 s1 in Hok.
+  exists st, r. split; [exact Hn|]. split; [exact Hx|].
   unfold spec_disjoint. rewrite <- (forallb_map fst (fun k => negb (has_key k s1))).
   fold (keys_of s0). rewrite <- filter_nil_all, <- (inter_keys s0 s1 H0 H1), map_nil_match.
   unfold next_ok in Hok. unfold spec_intersection. destruct (fst r) as [it|].
-  - destruct Hok as (x' & outs' & _ & _ & -> & _). reflexivity.
-  - rewrite Hok. reflexivity.
-Qed.
-Theorem is_subset_correct selflen (s0 s1 : list kv) : kmap_ok s0 = true -> kmap_ok s1 = true ->
-  selflen = N.of_nat (length s0) ->
-  is_subset pop_min selflen s0 s1 = Some (Ok (spec_subset s0 s1)).
-Proof.
-  intros H0 H1 ->. assert (streams_ok [s0; s1]) as Hs by (repeat constructor; assumption).
-  destruct (run_sel_correct OpInter [s0; s1] Hs) as (out & Hx & He).
-  unfold is_subset, run_intersection. rewrite Hx. cbn [fbind]. unfold fret. do 2 f_equal.
-  apply out_eqv_length in He. rewrite He.
-  assert (length (spec_sel OpInter [s0; s1]) = length (filter (fun k => has_key k s1) (keys_of s0))) as ->.
-  { rewrite <- (inter_keys s0 s1 H0 H1). symmetry. apply map_length. }
-  replace (length s0) with (length (keys_of s0)) by apply map_length.
-  unfold spec_subset. rewrite <- (forallb_map fst (fun k => has_key k s1)). fold (keys_of s0).
-  rewrite <- filter_length_all. apply eq_true_iff_eq. rewrite N.eqb_eq, Nat.eqb_eq. lia.
-Qed.
-Theorem is_superset_correct selflen (s0 s1 : list kv) : kmap_ok s0 = true -> kmap_ok s1 = true ->
-  selflen = N.of_nat (length s0) ->
-  is_superset pop_min selflen s0 s1 = Some (Ok (spec_superset s0 s1)).
-Proof.
-  intros H0 H1 ->. assert (streams_ok [s0; s1]) as Hs by (repeat constructor; assumption).
-  destruct (run_union_correct [s0; s1] Hs) as (out & Hx & He).
-  unfold is_superset. rewrite Hx. cbn [fbind]. unfold fret. do 2 f_equal.
-  apply out_eqv_length in He. rewrite He.
-  assert (length (spec_union [s0; s1]) = length (all_keys [s0; s1])) as ->.
-  { rewrite <- spec_union_keys. symmetry. apply map_length. }
-  rewrite <- (union_len_superset s0 s1 H0 H1).
-  apply eq_true_iff_eq. rewrite N.eqb_eq, Nat.eqb_eq. lia.
+  - destruct Hok as (x' & outs' & Hrep & _ & -> & _). split; [reflexivity|].
+    destruct Hrep as [_ Hrep]. destruct (o_cur (snd r)); [destruct Hrep as [_ Hrep]|]; eapply rep_no_again; eauto.
+  - destruct Hok as [-> Hf]. split; [reflexivity|]. eapply Forall_impl; [|exact Hf]. intros rd Hd. unfold again_of. now rewrite Hd.
 Qed.
 End WithHeap.
 
